@@ -2,9 +2,21 @@
 
 TLC enumerates (exhaustive slices) and samples (seeded simulation) module graphs x visibility
 assignments x require modifiers x engine histories, and computes for every step the expected
-class and emitted values.  This module materialises the module files of each case under
-/verif/work/C14/files/<case-id>/ and replays the history on a fresh engine, with
-STEEL_MODULE_INLINE unset and =1, and a sample with the JIT off.
+class and emitted values (spec/Modules.tla is the oracle; nothing in this file decides an
+expectation).  This module materialises the module files of each case under
+/verif/work/C14/files/<case-id>/ (units require them by absolute path, modules require each other
+by relative path) and replays the history on a fresh engine, with STEEL_MODULE_INLINE unset and =1,
+and a sample with the JIT off.
+
+Families (spec/MC_Modules_<name>.cfg):
+  mods1       1 module x 27 visibility assignments x 10 modifiers x own definitions (exhaustive)
+  rev         only-in around prefix-in (exhaustive; known finding)
+  dep2        m2 requires m1 with a module-level modifier, contract/re-export visibilities (exhaustive)
+  hist        3-unit histories over 2 modules with failing units / erroneous modules (exhaustive)
+  sim, simerr         seeded simulation of the full product (<= 3 modules, <= 2 requires each, 3 units)
+  simsafe, simerrsafe the same without the two shapes that trigger known defects (Avoid), so that
+                      nothing else can hide behind a known finding
+The python-side `features` only compute TAGS (which known defect a case can run into).
 """
 import hashlib
 import json
@@ -16,10 +28,6 @@ import vlib
 
 PROP = "C14"
 FILES = os.path.join(vlib.WORK, PROP, "files")
-
-ALL_MODS = ('{"plain", "pre", "only_a", "only_b", "only_h", "only_ab", "only_ah", "only_bh", "ren", "ren_b", '
-            '"pre_only_a", "pre_only_bh", "pre_ren", "rev_a", "rev_bh", "rev_ren"}')
-
 
 def case_id(c, prefix):
     h = hashlib.sha1(json.dumps([c["mods"], [s["src"] for s in c["steps"]]], sort_keys=True).encode()).hexdigest()[:14]
